@@ -17,6 +17,12 @@ GROUPS = [
     ('rules_protocol', 'rule_req'),
     ('rules_protocol', 'rule_val'),
     ('rules_protocol', 'rule_ops'),
+    ('rules_build', 'rule_store'),
+    ('rules_build', 'rule_topdown'),
+    ('rules_build', 'rule_verdict'),
+    ('rules_build', 'rule_bottomup'),
+    ('rules_build', 'rule_queue'),
+    ('rules_build', 'rule_error_discipline'),
 ]
 
 
